@@ -6,6 +6,12 @@ from .. import paths as P
 from ..facts import walk
 
 META = ("other",
+        "By symbolic interpretation (the shape rules below decide what lies outside the interpreter's fragment): per supported "
+        "type T, From<T>::from on a symbolic atom x gives a Value variant holding Some(x), Nullable::null the None of the same "
+        "variant, ValueType::try_from gives back Ok(x) and refuses the NULL and the Some of every other variant (2 probes per "
+        "variant); conversions between owned/borrowed forms (COPY_CONVERSIONS), reviewed foreign adapters (TRUSTED) and the "
+        "per-element conversions of a generic T are the identity, any other call on the payload is outside the fragment; "
+        "Option<T>, tuples of arity 1..12 (with refusal of other arities) and ValueTuple::into_iter likewise.  "
         "C12.R1 variant pairing per supported type T: From<T> constructs variant V with Some(payload), Nullable::null is V(None), "
         "ValueType::try_from has exactly one Ok arm on V(Some(x)) and Err otherwise, array_type names the ArrayType of the same "
         "name; R2 payload identity: only identity-preserving steps (move, Box::new, deref, owned-copy conversions) or a reviewed "
